@@ -17,10 +17,10 @@ type Layout struct {
 	Cells  map[cellPos]rune
 	Marks  map[cellPos][]rune // combining marks
 	Cur    cellPos
-	CurAlt *cellPos // second acceptable cell (cursor on a zero-width rune: its base cell or the cell after it)
+	CurAlt *cellPos         // second acceptable cell (cursor on a zero-width rune: its base cell or the cell after it)
 	Pads   map[cellPos]bool // last-column cells skipped because a double-width rune did not fit
-	EndRow int  // last row holding (or reserved by) the buffer
-	Filled bool // the buffer ends exactly at the right margin
+	EndRow int              // last row holding (or reserved by) the buffer
+	Filled bool             // the buffer ends exactly at the right margin
 	// columns that belong to the text on each row (start column of comparison)
 	From map[int]int
 }
